@@ -128,12 +128,7 @@ def CueTextTokenizer(cue_text: str):
 
       elif state is _State.data_cref:
         if c == ord(";"):
-          coded_entity = str(buffer)
-          decoded_entity = html.unescape(coded_entity)
-          if decoded_entity == coded_entity :
-            result.extend(buffer)
-          else:
-            result.append(decoded_entity)
+          result.append(html.unescape(str(buffer) + ";"))
           state = _State.data
         elif c == EOF_MARKER:
           result.extend(buffer)
@@ -214,12 +209,7 @@ def CueTextTokenizer(cue_text: str):
 
       elif state is _State.annot_cref:
         if c == ord(";"):
-          coded_entity = str(cref)
-          decoded_entity = html.unescape(coded_entity)
-          if decoded_entity == coded_entity:
-            buffer.extend(cref)
-          else:
-            buffer.append(decoded_entity)
+          buffer.append(html.unescape(str(cref) + ";"))
           state = _State.start_tag_annot
         elif c in (EOF_MARKER, ord(">")):
           buffer.extend(cref)
